@@ -6,7 +6,7 @@ from props.m1common import rng_for, is_err
 import sx
 
 PID = "C20"
-KERNELS = ['K_scale']   # translated from /repo on every run, tied to the model by coq/Gen/<name>_eq.v
+KERNELS = ['K_scale', 'K_lazy_wrapper']   # translated from /repo on every run, tied to the model by coq/Gen/<name>_eq.v
 RUNNER = "impl_m6.py"
 N = {"quick": 3000, "thorough": 100000}
 VM_CROSSCHECK = True
@@ -146,8 +146,6 @@ def canon(o):
 
 
 def model_case(case):
-    if case[0] == "lazy":
-        return case[:2] + [a for a in case[2:] if int(a) != 99]     # a call in which the function raises leaves no trace in the model
     return case[:3] if case[0] == "round" else case
 
 
@@ -181,8 +179,6 @@ def compare(case, mo, io):
                 return f"scale: model {x!r} impl {y!r}"
         return None
     a = canon(mo)
-    if k == "lazy":
-        io = [x for x in io if not (isinstance(x, list) and x and x[0] == "raised")]
     b = canon([x for x in io if not (isinstance(x, list) and x and isinstance(x[0], str) and x[0].endswith(("differs", "changed")))])
     if k == "sums":
         a, b = sorted(map(tuple, a[1:])), sorted(map(tuple, b[1:]))
